@@ -383,6 +383,15 @@ macro_rules! float_forms {
             bin4!($ctx, &format!("Basis2<{}> * Basis2", stringify!($S)), b2a, b2b, *);
             let (b3a, b3b): (Basis3<$S>, Basis3<$S>) = (Basis3::from_quaternion(&qa), Basis3::from_quaternion(&qb));
             bin4!($ctx, &format!("Basis3<{}> * Basis3", stringify!($S)), b3a, b3b, *);
+            // a Basis2 need not be a pure rotation: look_at with `up` clockwise of `dir` / look_at_stable(dir, true) is a reflection
+            let b2m: Basis2<$S> = Basis2::look_at_stable(Vector2::new(3.0, 4.0), true);
+            let b2n: Basis2<$S> = Rotation::look_at(Vector2::new(1.0, 2.0), Vector2::new(2.0, -1.0));
+            for lm in [vec![b2m], vec![b2a, b2m, b2b], vec![b2m, b2n], vec![b2n, b2a, b2m, b2m]] {
+                let fm = lm.iter().fold(Basis2::<$S>::one(), |acc, x| acc * *x);
+                let (pm1, pm2): (Basis2<$S>, Basis2<$S>) = (lm.iter().product(), lm.clone().into_iter().product());
+                $ctx.folds.rec(pm1.bits() == fm.bits() && pm2.bits() == fm.bits(),
+                    || format!("Basis2<{}> Product of a list containing reflections (look_at_stable(dir, true)): by ref {:?}, by value {:?}, left fold {:?}", stringify!($S), pm1, pm2, fm));
+            }
             let l2 = vec![b2a, b2b, b2b];
             let f2 = l2.iter().fold(Basis2::<$S>::one(), |acc, x| acc * *x);
             let (p1, p2): (Basis2<$S>, Basis2<$S>) = (l2.iter().product(), l2.clone().into_iter().product());
